@@ -16,4 +16,5 @@ CONSTANTS
     LastChunkToEnd = TRUE
 INIT GenInit
 NEXT GenNext
+INVARIANTS TreeOK LeavesHaveNoKids SameIsEquivalence LinkCountsAddUp ChunksCover StreamsOK HardLinksResolve
 CHECK_DEADLOCK FALSE
